@@ -7,7 +7,8 @@ RULE = ('affine maps with entries on the dyadic grid k/8 (|k|<256), points/segme
         'implementation output itself, against the documented products self*T / T*self; laws ((A*B)*p = A*(B*p), det multiplicative, '
         'A*inverse(A) = identity, (A*s).eval(t) = A*(s.eval t), TranslateScale == its Affine) evaluated on the implementation output. '
         'non-trivial = distinct op line')
-KERNEL_DEPS = [r'Affine\..*', r'TranslateScale\..*']
+KERNEL_DEPS = [r'Affine\..*', r'TranslateScale\..*',
+               r'K2:Affine\.(svd|mul_Ellipse|mul_Arc)', r'K2:Ellipse\.(private_new|center|radii_and_rotation)', r'K2:(rotatePt|sampleEllipse)']
 UNPROVED = ['Affine * Arc / Ellipse (SVD based; see C10/C11 and the known finding on arcs)', 'rounding error of products (compared with tolerance)']
 ASSUMPTIONS = ['sin/cos are uninterpreted in the theorems (every rotate-family identity is proved for arbitrary values of them)']
 MAKERS = {}
